@@ -186,6 +186,13 @@ def main():
                          (vk, kind, target, j, r.lines[j] if j < len(r.lines) else None, rb.lines[j] if j < len(rb.lines) else None, b["lines"][j] if j < len(b["lines"]) else None),
                          dict(rp, expected=rb.lines[:60], observed=r.lines[:60]))
 
+    import qbesel
+    try:
+        sel_problems, sel_rows, _ = qbesel.gen_qbesel(run=False)
+    except BuildError as e:
+        sel_problems, sel_rows = [str(e)[-500:]], []
+    for pr in sel_problems:
+        rep.fail("tie:qbesel", "instruction-selection table cannot be regenerated: " + pr, {"kind": "broken-obligation", "detail": pr}, no_input=True)
     ok, outp = lake_build(["FerretVerif.Props.C09"])
     names = theorem_names("C09")
     axioms, discharged = {}, 0
